@@ -584,4 +584,95 @@ theorem run_eq_decodeQ (cfg : Cfg) : ∀ (fuel : Nat) (frag : Option Frag) (st :
                   rw [he]
                   simp only [finish_events, hev, f_ev, RErr.toEvent, if_true]
 
+/-- the relaxations only matter on streams the RFC decoder rejects as protocol violations -/
+theorem hdrViolation_go_le {cfg : Cfg} {inMsg : Bool} {h : Hdr}
+    (hv : hdrViolation Quirks.rfc cfg inMsg h = false) : hdrViolation Quirks.go cfg inMsg h = false := by
+  obtain ⟨fin, rsv1, rsv2, rsv3, op, masked, len7⟩ := h
+  simp only [hdrViolation, Quirks.go, Quirks.rfc] at hv ⊢
+  generalize isControlOp op = c at hv ⊢
+  generalize isDataOp op = d at hv ⊢
+  generalize (op == 0) = z at hv ⊢
+  generalize decide (len7 > 125) = l at hv ⊢
+  cases c <;> cases d <;> cases z <;> cases l <;> cases fin <;> cases rsv1 <;> cases rsv2 <;> cases rsv3 <;>
+    cases masked <;> cases inMsg <;> cases hd : cfg.deflate <;> cases hs : cfg.server <;> simp_all
+
+theorem closeEvent_go_eq (accept : Nat → Bool) (p : Bytes)
+    (h : closeEvent Quirks.rfc accept p ≠ .protoError) :
+    closeEvent Quirks.go accept p = closeEvent Quirks.rfc accept p := by
+  match p with
+  | [] => rfl
+  | [_] => simp [closeEvent, Quirks.rfc] at h
+  | _ :: _ :: _ => rfl
+
+theorem decodeQ_go_eq_rfc (cfg : Cfg) (accept : Nat → Bool) : ∀ (fuel : Nat) (frag : Option Frag)
+    (bs : Bytes), Event.protoError ∉ decodeQ Quirks.rfc cfg accept fuel frag bs →
+    decodeQ Quirks.go cfg accept fuel frag bs = decodeQ Quirks.rfc cfg accept fuel frag bs := by
+  intro fuel
+  induction fuel with
+  | zero => intro frag bs _; rfl
+  | succ n ih =>
+    intro frag bs hp
+    match bs with
+    | [] => simp [decodeQ]
+    | [_] => simp [decodeQ]
+    | b0 :: b1 :: r1 =>
+      cases frag <;> (
+        simp only [decodeQ] at hp ⊢
+        generalize parseHdr b0 b1 = h at hp ⊢
+        split at hp
+        · simp at hp
+        · rename_i hvr0
+          have hvr := Bool.eq_false_iff.mpr hvr0
+          rw [hdrViolation_go_le hvr]
+          simp only [hvr, Bool.false_eq_true, if_false] at hp ⊢
+          cases hext : extLen h.len7 r1 with
+          | none => rfl
+          | some v =>
+            obtain ⟨len, r2⟩ := v
+            simp only [hext] at hp ⊢
+            by_cases hge : len ≥ two63
+            · simp [hge, Quirks.rfc] at hp
+            · simp only [hge, if_false] at hp ⊢
+              cases hk : takeKey h.masked r2 with
+              | none => rfl
+              | some kv =>
+                obtain ⟨key, r3⟩ := kv
+                simp only [hk] at hp ⊢
+                cases hctl : isControlOp h.opcode
+                · simp only [hctl, Bool.false_eq_true, if_false] at hp ⊢
+                  split
+                  · rfl
+                  · rename_i hov
+                    simp only [hov, if_false] at hp
+                    split
+                    · rfl
+                    · rename_i hl
+                      simp only [hl, if_false] at hp
+                      split
+                      · rename_i hfin
+                        simp only [hfin, if_true] at hp
+                        split
+                        · rfl
+                        · rename_i hterm
+                          simp only [hterm, if_false] at hp
+                          rw [ih _ _ (fun hm => hp (List.mem_cons_of_mem _ hm))]
+                      · rename_i hfin
+                        simp only [hfin, if_false] at hp
+                        exact ih _ _ hp
+                · simp only [hctl, if_true] at hp ⊢
+                  by_cases hl : r3.length < len
+                  · simp only [hl, if_true]
+                  · simp only [hl, if_false] at hp ⊢
+                    cases h9 : (h.opcode == 9)
+                    · simp only [h9, Bool.false_eq_true, if_false] at hp ⊢
+                      cases h10 : (h.opcode == 10)
+                      · simp only [h10, Bool.false_eq_true, if_false] at hp ⊢
+                        rw [closeEvent_go_eq]
+                        intro hc; rw [hc] at hp; simp at hp
+                      · simp only [h10, if_true] at hp ⊢
+                        rw [ih _ _ (fun hm => hp (List.mem_cons_of_mem _ hm))]
+                    · simp only [h9, if_true] at hp ⊢
+                      rw [ih _ _ (fun hm => hp (List.mem_cons_of_mem _ hm))]
+      )
+
 end CentrifugeVerif.WS.Reader
